@@ -551,7 +551,15 @@ func (r *runState) step(i int, op *Op, fc faultCurve, mc *ref.SlipCurve) {
 		desc += " -> " + kindName(kind)
 	}
 	r.log = append(r.log, desc)
-	// no operation may change an existing extended key
+	// no operation may change an existing extended key: key bytes and chain code of all of them are compared again, and
+	// one of them (rotating) in full, including its serialized public key and its fingerprint
+	if n := len(r.handles); n > 0 {
+		h := r.handles[i%n]
+		if bad := compare(h.real, h.model); bad != "" {
+			r.violate("model-divergence:earlier-key-changed", fmt.Sprintf("%s: %s of extended key #%d no longer matches the specification (now %s, specification %s)", where, bad, i%n, describeReal(h.real), describeModel(h.model)), sig)
+			return
+		}
+	}
 	for j, h := range r.handles {
 		if !bytes.Equal(h.real.Key.Bytes(), h.model.Key) || !bytes.Equal(h.real.ChainCode, h.model.ChainCode) {
 			r.violate("model-divergence:receiver-mutated", fmt.Sprintf("%s: extended key #%d changed (now %s, specification %s)", where, j, describeReal(h.real), describeModel(h.model)), sig)
@@ -670,6 +678,7 @@ func Gen(seed uint64, tier string) *Config {
 		}
 		return 0, false
 	}
+	var paths []Op
 	op := Op{Kind: "master", SeedHex: genSeed()}
 	op.PermAt, op.Wrapped = perm()
 	c.Ops = append(c.Ops, op)
@@ -697,6 +706,16 @@ func Gen(seed uint64, tier string) *Config {
 			for i := depth; i > 0; i-- {
 				o.Path = append(o.Path, genIndex())
 			}
+			// wallets derive many sibling keys in a row: often repeat an earlier seed and path prefix with another last
+			// index (or exactly the same path again)
+			if len(paths) > 0 && r.IntN(2) == 0 {
+				prev := paths[r.IntN(len(paths))]
+				o.SeedHex, o.Path = prev.SeedHex, append([]uint32{}, prev.Path...)
+				if len(o.Path) > 0 && r.IntN(4) != 0 {
+					o.Path[len(o.Path)-1] = genIndex()
+				}
+			}
+			paths = append(paths, o)
 		default:
 			o = Op{Kind: "master", SeedHex: genSeed()}
 		}
